@@ -676,6 +676,9 @@ def run(tier):
         # the transport below the buffers is part of this property's anchored code: a wrong byte count reported by
         # network_write / network_read breaks the stream seen through netbuf (C06's rules, shared)
         from . import c06
+        # a completed transport operation's handle is dropped before anything can cancel through it
+        if c06.handle_clear_rule(prog, rep, [WU, RU]) < 3:
+            rep.defer_broken("SLOT: fewer than 3 (handle field, completion callback) pairs found in the buffered reader/writer")
         tprog = ir.Program(list(TRANSPORT), cfg)
         rep.add_stats(tprog)
         for up in TRANSPORT:
